@@ -2,6 +2,7 @@ package main
 
 import (
 	"bytes"
+	"encoding/json"
 	"fmt"
 	"strings"
 
@@ -46,12 +47,22 @@ func runC12(r *Run, rng *Rng, thorough bool) {
 	if thorough {
 		n = 150000
 	}
+	held := &heldOutputs{}
 	eachValidObject(rng, n, func(class string, c psa.IClaims, d ClaimsDesc) {
 		if hasBadUTF8(&d) || !conformant(&d) {
 			return
 		}
 		var j []byte
 		var err error
+		// the JSON a caller was handed stays what it was, whatever is encoded afterwards (both entry points)
+		if why := held.check(); why != "" {
+			r.ImplOnly("held-json", false, "held-json")
+			r.Fail("json-roundtrip", "a JSON encoding handed out earlier no longer decodes to its claims: "+why)
+			held = &heldOutputs{}
+		}
+		if vj, verr := psa.ValidateAndEncodeClaimsToJSON(c); verr == nil {
+			held.add("ValidateAndEncodeClaimsToJSON", vj)
+		}
 		if p, _ := safely(func() { j, err = psa.EncodeClaimsToJSON(c) }); p {
 			r.Case(class, false, "jenc "+d.Line(), "json=panic")
 			return
@@ -68,6 +79,7 @@ func runC12(r *Run, rng *Rng, thorough bool) {
 			return
 		}
 		r.Case(class, false, "jenc "+d.Line(), "json="+tree.Proto())
+		held.add("EncodeClaimsToJSON", j)
 		// documented member names, base64 for byte strings, absent optional claims omitted
 		if got, want := sortedMembers(tree), sortedMembers(jsonOf(&d)); got != want {
 			r.Fail("json-shape", fmt.Sprintf("emitted JSON differs from the documented form:\n emitted: %s\n expect:  %s", tree.Text(), jsonOf(&d).Text()))
@@ -126,5 +138,51 @@ func runC12(r *Run, rng *Rng, thorough bool) {
 		}
 	})
 	extJSON(r, rng, map[bool]int{false: 400, true: 10000}[thorough])
+	evidenceJSON(r, rng, map[bool]int{false: 60, true: 1500}[thorough])
 	decodedThenChanged(r, rng, map[bool]int{false: 150, true: 4000}[thorough])
+}
+
+// evidenceJSON: the JSON form of an Evidence is the JSON form of the claims it holds *now* — also when it was signed
+// or decoded over other claims before (an envelope held from an earlier Sign / UnmarshalCOSE must not leak into it).
+func evidenceJSON(r *Run, rng *Rng, n int) {
+	ks := keys()
+	for i := 0; i < n; i++ {
+		p1, p2 := 1+i%2, 1+(i/2)%2
+		d1, d2 := baseValid(rng, p1), baseValid(rng, p2)
+		d1.Canon, d1.Prof = canonOf(p1), sp(canonOf(p1))
+		d2.Canon, d2.Prof = canonOf(p2), sp(canonOf(p2))
+		normalise(&d1)
+		normalise(&d2)
+		if hasBadUTF8(&d1) || hasBadUTF8(&d2) || !conformant(&d1) || !conformant(&d2) {
+			continue
+		}
+		r.ImplOnly("evidence-json", false, "evidence-json "+d1.Line()+" then "+d2.Line())
+		tok, ev, err := signedToken(&d1, ks[0], ks[0].algs[0])
+		if err != nil {
+			continue
+		}
+		for _, how := range []string{"signed", "decoded"} {
+			if how == "decoded" {
+				ev = &psa.Evidence{}
+				if err := ev.UnmarshalCOSE(tok); err != nil {
+					break
+				}
+			}
+			c2 := d2.Build()
+			if err := ev.SetClaims(c2); err != nil {
+				continue
+			}
+			want, werr := psa.EncodeClaimsToJSON(c2)
+			got, gerr := json.Marshal(ev)
+			if werr != nil || gerr != nil {
+				r.Fail("json-roundtrip", fmt.Sprintf("evidence (%s over other claims, then SetClaims): JSON encoding fails: %v / %v", how, werr, gerr))
+				continue
+			}
+			wt, _ := parseJSONText(want)
+			gt, _ := parseJSONText(got)
+			if wt == nil || gt == nil || wt.Proto() != gt.Proto() {
+				r.Fail("json-roundtrip", fmt.Sprintf("evidence (%s over other claims, then SetClaims): its JSON form %s is not the JSON form of the claims it holds %s", how, trunc(string(got), 300), trunc(string(want), 300)))
+			}
+		}
+	}
 }
